@@ -62,6 +62,10 @@ pub struct Chunker {
     pub total: usize,
     pub samples: Vec<Value>,
     pub kinds: std::collections::BTreeMap<String, usize>,
+    /// hashes of the events pushed so far: an event that was recorded before is dropped, so every
+    /// event validated is a distinct case (evidence: distinct_nontrivial is counted over distinct events)
+    seen: std::collections::HashSet<u64>,
+    pub duplicates: usize,
 }
 
 impl Chunker {
@@ -77,6 +81,8 @@ impl Chunker {
             total: 0,
             samples: Vec::new(),
             kinds: Default::default(),
+            seen: Default::default(),
+            duplicates: 0,
         }
     }
 
@@ -95,13 +101,23 @@ impl Chunker {
     }
 
     pub fn push(&mut self, ev: Value) {
+        let line = ev.to_string();
+        {
+            use std::hash::{Hash, Hasher};
+            let mut h = std::collections::hash_map::DefaultHasher::new();
+            line.hash(&mut h);
+            if !self.seen.insert(h.finish()) {
+                self.duplicates += 1;
+                return;
+            }
+        }
         if let Some(k) = ev.get("ev").and_then(|k| k.as_str()) {
             *self.kinds.entry(k.to_string()).or_insert(0) += 1;
         }
         if self.samples.len() < 3 || (self.total % 997 == 0 && self.samples.len() < 8) {
             self.samples.push(ev.clone());
         }
-        self.cur.push(ev.to_string());
+        self.cur.push(line);
         self.total += 1;
         if self.cur.len() >= self.max_events {
             self.flush();
